@@ -124,7 +124,8 @@ func (s *SourceFileSet) file(p Pos) *SourceFile {
 
 		// f.base <= int(p) by definition of searchFiles
 		if int(p) <= f.Base+f.Size {
-			s.LastFile = f // race is ok - s.last is only a cache
+			// the cache is not updated here: the file set is shared by
+			// concurrently running clones and lookups must not write to it
 			return f
 		}
 	}
